@@ -137,7 +137,7 @@ fn run_one_inner(p: &Profile, seed: u64, index: u64, keep_trace: bool, want_samp
         out_world_stats = w.stats.clone();
         trace_hash = w.trace_hash;
         states = w.state_hashes.iter().cloned().collect::<Vec<u64>>();
-        tainted = !w.ghost.tainted_terms.is_empty();
+        tainted = !w.ghost.tainted_terms.is_empty() || !w.ghost.stale_conf_elections.is_empty();
         suppressed = w.suppressed.clone();
         o
     };
@@ -223,9 +223,10 @@ fn finding_matches(k: &KnownFinding, v: &Violation, tainted: bool) -> bool {
         return false;
     }
     if k.precondition == "s3" {
-        // history precondition: the run elected a leader from a node that reloaded a lower commit
-        // index while holding >= 2 committed-but-unapplied membership entries
-        return tainted && k.property == v.prop && ["C01", "C02", "C03", "C04", "C05"].contains(&v.prop);
+        // history precondition: the run elected a leader from a node that reloaded a lower commit index while holding
+        // >= 2 committed-but-unapplied membership entries, or, more generally, a leader whose own log held >= 2
+        // membership entries beyond its applied index when it won (it campaigned two changes behind its log)
+        return tainted && k.property == v.prop && ["C01", "C02", "C03", "C04", "C05", "C09"].contains(&v.prop);
     }
     k.property == v.prop && k.check == v.check && v.sig.starts_with(&k.signature)
 }
@@ -263,6 +264,23 @@ fn cmd_run(args: &BTreeMap<String, String>) -> i32 {
     }
     for (k, v) in &r.faults {
         println!("  fault {k} = {v}");
+    }
+    if let (Some(v), Some(path), Some((cluster, trace))) = (&r.violation, args.get("write"), r.trace.as_ref()) {
+        let (min_trace, mv) = minimise::minimise(cluster, trace, v, 120, focus_of(args));
+        let rf = ReplayFile {
+            property: mv.prop.to_string(),
+            profile: spec.profile.name.to_string(),
+            seed,
+            run_index: index,
+            run_seed: r.run_seed,
+            minimised: true,
+            original_actions: trace.len(),
+            cluster: cluster.clone(),
+            actions: min_trace.clone(),
+            expected: Expected { property: mv.prop.to_string(), check: mv.check.to_string(), step: mv.step, node: mv.node, sig: mv.sig.clone(), detail: mv.detail.clone() },
+        };
+        std::fs::write(path, serde_json::to_string_pretty(&rf).unwrap()).unwrap();
+        println!("minimised {} -> {} actions, written to {path}", trace.len(), min_trace.len());
     }
     if let Some(v) = &r.violation {
         println!("violation {} {} node {} step {}: {}", v.prop, v.check, v.node, v.step, v.detail);
@@ -536,7 +554,7 @@ fn cmd_check(args: &BTreeMap<String, String>) -> i32 {
             Some(rf) => {
                 let (v, w) = replay(&rf.cluster, &rf.actions, Some(focus));
                 if let Some(v) = v {
-                    if finding_matches(k, &v, !w.ghost.tainted_terms.is_empty()) {
+                    if finding_matches(k, &v, !w.ghost.tainted_terms.is_empty() || !w.ghost.stale_conf_elections.is_empty()) {
                         *known_hit.entry(k.description.clone()).or_insert(0) += 1;
                     } else if v.prop == id {
                         println!("stored reproduction {} now fails differently: {} {}", k.replay, v.check, v.detail);
@@ -809,7 +827,7 @@ fn cmd_scenario(args: &BTreeMap<String, String>) -> i32 {
     match &s.violation {
         Some(v) => {
             println!("violation {} {} node {} step {}: {}", v.prop, v.check, v.node, v.step, v.detail);
-            println!("tainted by the stale-configuration precondition: {}", !s.world.ghost.tainted_terms.is_empty());
+            println!("tainted by the stale-configuration precondition: {}", !s.world.ghost.tainted_terms.is_empty() || !s.world.ghost.stale_conf_elections.is_empty());
             if let Some(path) = args.get("write") {
                 let rf = ReplayFile {
                     property: v.prop.to_string(),
